@@ -274,12 +274,62 @@ def corr_scene(ctx):
     ctx.count('scene.surfaces_%d' % n)
 
 
+def object_walls(ctx):
+    """Object level (from_polygon): the blocking surfaces the engine uses for source and receiver
+    visibility are the walls it was GIVEN — compared with the input polygons, and the visibility of
+    the patches from points inside, outside and behind a partition with the independent line-of-
+    sight test on the input walls."""
+    sp = common.import_repo()
+    from sparrowpy import geometry
+    import pyfar as pf
+    rng = ctx.rng
+    sides = [float(x) for x in rng.integers(2, 4, size=3)]
+    walls = sp.testing.shoebox_room_stub(*sides)
+    # a two-faced partition in the middle of the room (two coincident one-sided surfaces)
+    x0 = sides[0] / 2
+    q = np.array([[x0, 0.0, 0.0], [x0, 1.0, 0.0], [x0, 1.0, 1.0], [x0, 0.0, 1.0]])
+    part = [sp.geometry.Polygon(q, [0, 0, 1], [1, 0, 0]), sp.geometry.Polygon(q[::-1].copy(), [0, 0, 1], [-1, 0, 0])]
+    given = walls + part
+    pts_in = np.array([w.pts for w in given])
+    nrm_in = np.array([w.normal for w in given], dtype=float)
+    r = sp.DirectionalRadiosityFast.from_polygon(given, float(rng.choice([0.5, 1.0])))
+    ctx.oracle_evals += 1
+    inp = {'sides': sides, 'partition': q}
+    if not np.array_equal(np.asarray(r.walls_points), pts_in):
+        w = int(np.argmax(np.abs(np.asarray(r.walls_points) - pts_in).reshape(len(given), -1).max(axis=1)))
+        ctx.violation('walls-not-as-given', 'after from_polygon the object holds other corner points for wall %d than the polygon it was given' % w,
+                      inp, np.asarray(r.walls_points)[w], pts_in[w])
+        return
+    centers = r.patches_center
+    wall_of = np.asarray(r._patch_to_wall_ids)
+    for pt in (np.array([0.3, 0.4, 0.5]), np.array([sides[0] - 0.3, 0.5, 0.4]), np.array([-0.8, 0.5 * sides[1], 0.5 * sides[2]]),
+               np.array([0.5 * sides[0], 0.5 * sides[1], sides[2] + 0.7])):
+        r.init_source_energy(pf.Coordinates(*pt))
+        e = np.asarray(r._energy_init_source)[:, 0, 0]
+        ctx.oracle_evals += 1
+        for j in range(r.n_patches):
+            ref, mgmin = True, 1.0
+            for s_ in range(len(given)):
+                ok, mg = oracle_visible(pt, centers[j], pts_in[s_], nrm_in[s_], False, s_ == wall_of[j])
+                mgmin = min(mgmin, mg)
+                ref = ref and ok
+            if mgmin > 1e-3 and bool(e[j] != 0) != ref:
+                ctx.violation('object-visibility', 'patch %d (wall %d) from the point %s: the engine deposits %s energy, line of sight on the given walls says %s'
+                              % (j, wall_of[j], np.round(pt, 3).tolist(), 'some' if e[j] != 0 else 'no', 'visible' if ref else 'hidden'),
+                              dict(inp, point=pt), float(e[j]), 'non-zero' if ref else 0.0)
+                return
+    ctx.cases += 1
+    ctx.count('object_rooms')
+
+
 def run(ctx):
     corr_rotmat(ctx, 30 if ctx.tier == 'quick' else 300)
     corr_single(ctx, 150 if ctx.tier == 'quick' else 4000)
     corr_membership(ctx, 20 if ctx.tier == 'quick' else 400)
     for _ in range(4 if ctx.tier == 'quick' else 60):
         corr_scene(ctx)
+    for _ in range(1 if ctx.tier == 'quick' else 10):
+        object_walls(ctx)
 
 
 def oracle(ctx, budget_s=60):
@@ -288,6 +338,7 @@ def oracle(ctx, budget_s=60):
         corr_single(ctx, 100)
         corr_membership(ctx, 20)
         corr_scene(ctx)
+        object_walls(ctx)
 
 
 def replay(ctx, rp):
